@@ -57,7 +57,7 @@ mod date_format {
         D: Deserializer<'de>,
     {
         let s = String::deserialize(deserializer)?;
-        if s.len() != 6 {
+        if s.len() != 6 || !s.bytes().all(|b| b.is_ascii_digit()) {
             return Err(serde::de::Error::custom("Date must be 6 digits (YYMMDD)"));
         }
 
